@@ -134,6 +134,7 @@ func main() {
 	writeIfChanged(filepath.Join(*out, "Conds.lean"), genConds())
 	facts := collectFacts()
 	writeIfChanged(filepath.Join(*out, "Facts.lean"), genFacts(facts))
+	writeIfChanged(filepath.Join(*out, "Locks.lean"), genLocks())
 	if *factsJSON != "" {
 		b, _ := json.MarshalIndent(facts, "", " ")
 		writeIfChanged(*factsJSON, string(b)+"\n")
